@@ -113,20 +113,31 @@ def _bulk(ctx, index):
             if mt:
                 suffix = mt.group(1)
     ctx.need(suffix is not None, "cannot read the request-body name template from the emitter")
-    inv = [
-        n
-        for n in iter_own(f.node)
-        if isinstance(n, ast.Call) and isinstance(n.func, ast.Lambda) and n.args and "body_name" in norm(n.args[0])
-    ]
+    # every expression that takes the emitters' suffix off a name, wherever it sits (argument of an applied lambda, an
+    # explaining variable, ...): <N>.rpartition(S)[0] / <N>[:-len(S)] / <N>.removesuffix(S) / <N>[:-k] / <N>.rstrip(S)
+    inv = []
+    for n in iter_own(f.node):
+        base = None
+        if isinstance(n, ast.Subscript) and isinstance(n.value, ast.Call) and isinstance(n.value.func, ast.Attribute) and n.value.func.attr == "rpartition" and isinstance(n.value.func.value, ast.Name):
+            if n.value.args and isinstance(n.value.args[0], ast.Constant) and n.value.args[0].value == suffix:
+                base = n.value.func.value.id
+        elif isinstance(n, ast.Call) and isinstance(n.func, ast.Attribute) and n.func.attr in ("removesuffix", "rstrip", "strip", "lstrip") and isinstance(n.func.value, ast.Name):
+            if n.args and isinstance(n.args[0], ast.Constant) and isinstance(n.args[0].value, str) and set(n.args[0].value) & set(suffix) and len(n.args[0].value) > 1:
+                base = n.func.value.id
+        elif isinstance(n, ast.Subscript) and isinstance(n.value, ast.Name) and isinstance(n.slice, ast.Slice) and n.slice.lower is None and n.slice.upper is not None:
+            up = norm(n.slice.upper)
+            if up in ("-len({!r})".format(suffix), "-{}".format(len(suffix))):
+                base = n.value.id
+        if base is not None:
+            inv.append((n, base))
     ctx.need(inv, "the body_name -> schema key derivation vanished from openapi_bulk")
-    for c in inv:
-        e = c.args[0]
+    for e, base in inv:
         t = norm(e)
         forms = (
-            "body_name.rpartition({!r})[0]".format(suffix),
-            "body_name[:-len({!r})]".format(suffix),
-            "body_name.removesuffix({!r})".format(suffix),
-            "body_name[:-{}]".format(len(suffix)),
+            "{}.rpartition({!r})[0]".format(base, suffix),
+            "{}[:-len({!r})]".format(base, suffix),
+            "{}.removesuffix({!r})".format(base, suffix),
+            "{}[:-{}]".format(base, len(suffix)),
         )
         ok = t in forms
         why = ""
